@@ -43,15 +43,44 @@ def _param_index(f, v):
     return None
 
 
+_PACKED_FNS = {}
+
+
+def packed_fn(prog, g, depth=0):
+    """g answers a packed reference: every value it returns is `(a << 16) | b` (or the answer of such a function)"""
+    if g in _PACKED_FNS:
+        return _PACKED_FNS[g]
+    _PACKED_FNS[g] = False
+    if g.decl or depth > 2:
+        return False
+    from .errflow import ret_sources
+    g.build()
+    srcs = ret_sources(g)
+    res = bool(srcs) and all(is_packed_value(prog, g, v, depth + 1) for (v, _b) in srcs)
+    _PACKED_FNS[g] = res
+    return res
+
+
+def is_packed_value(prog, f, v, depth=0):
+    if is_packed_expr(v):
+        return True
+    v = _unext(v)
+    if v.is_inst and v.op == "call" and v.callee:
+        g = prog.fn(v.callee, f.unit)
+        return g is not None and packed_fn(prog, g, depth)
+    return False
+
+
 def carriers(prog, scope):
     """(fields, outparams): fields = {(struct, member)}, outparams = {(function, k)} that receive a packed expression"""
     fields, outs = {}, {}
+    _PACKED_FNS.clear()
     for f in prog.functions():
         if f.decl or not scope(f.unit.src):
             continue
         f.build()
         for i in f.insts():
-            if i.op != "store" or not is_packed_expr(i.ops[0]):
+            if i.op != "store" or not is_packed_value(prog, f, i.ops[0]):
                 continue
             p = strip_casts(i.ops[1])
             if p.is_inst and p.op == "getelementptr" and p.field():
@@ -67,7 +96,7 @@ def _packed_locals(prog, f, outs):
     """allocas of f that receive a packed reference: stored directly, or filled by a callee through an out-parameter"""
     loc = set()
     for i in f.insts():
-        if i.op == "store" and is_packed_expr(i.ops[0]):
+        if i.op == "store" and is_packed_value(prog, f, i.ops[0]):
             p = strip_casts(i.ops[1])
             if p.is_inst and p.op == "alloca":
                 loc.add(id(p))
@@ -125,6 +154,30 @@ def run_packedref(chk, prog, rule="K12-packedref", scope=None):
                 chk.violation(rule, inst, bad, "a metadata reference ((block start << 16) | offset) read from %s is used as an operand of "
                               "'%s': a byte count added to a packed reference does not carry into the next metadata block, the "
                               "reference points past the end of the block it names" % (what, bad.op))
+    # a packed value that never went through memory (an SSA local, the answer of a helper) is not computed with either
+    for f in prog.functions():
+        if f.decl or not scope(f.unit.src):
+            continue
+        for a in f.insts():
+            if a.op not in ("add", "sub", "mul"):
+                continue
+            for o in a.ops:
+                work, seen, hit = [o], set(), None
+                while work and hit is None:
+                    v = _unext(work.pop())
+                    if id(v) in seen:
+                        continue
+                    seen.add(id(v))
+                    if is_packed_value(prog, f, v):
+                        hit = v
+                    elif v.is_inst and v.op in ("phi", "select"):
+                        work.extend(v.ops if v.op == "phi" else v.ops[1:])
+                if hit is not None:
+                    n += 1
+                    chk.analysed(f)
+                    chk.violation(rule, "%s:value@%d" % (f.name, a.line), a, "a metadata reference ((block start << 16) | offset) formed at "
+                                  "line %d is used as an operand of '%s': a byte count added to a packed reference does not carry "
+                                  "into the next metadata block" % (hit.line, a.op))
     chk.note("%s: carriers found: %s; out-parameters: %s" % (rule, sorted("%s.%s" % (a.split(".")[-1], b) for a, b in fields),
                                                           sorted("%s#%d" % (g.name, k) for g, k in outs)))
     return n, len(fields)
